@@ -1,6 +1,7 @@
 package main
 
 import (
+	"math"
 	"errors"
 	"fmt"
 	"strings"
@@ -485,14 +486,20 @@ func runC09(c *rt.Ctx) {
 				w.ClassN("days-around-today", 1)
 			})
 		}
-		for _, limit := range []int{1, 5, 9} { // and under limits shorter than any date
+		for _, limit := range []int{1, 5, 9, -1, -10, math.MinInt} { // and under limits shorter than any date (a negative limit is non-zero: everything is longer)
 			date.MaxInputLength = limit
 			c.Serial("days-around-today", func(w *rt.W) {
 				for _, t := range near {
 					c09Case(w, t, 0, true)
 				}
+				for _, t := range []string{"2021-03-04", "20210304", "0000-01-01", "2021-02-30", "", "x"} {
+					c09Case(w, t, 0, true)
+					c09Case(w, t, date.RuleDisableBasic, true)
+				}
+				w.ClassN("limit-shorter-than-any-date-or-negative", 1)
 			})
 		}
+		c.Require("limit-shorter-than-any-date-or-negative", 6)
 		date.MaxInputLength = 10
 		c.Require("days-around-today", 8)
 		// every history of three calls over six texts x two rules, single-threaded (what one call leaves behind for the
